@@ -514,6 +514,21 @@ theorem step_grow (s : State) (op : Op) (hop : op.early = true) (h : Inv s) : Gr
         | exact grow_emit s _
         | exact grow_newReloc_emit s hc _ _ (a64abs_siteOK s k _ rfl rfl rfl rfl rfl)
 
+  | memAbs k a t =>
+    simp only [step]
+    split
+    · exact grow_refl s
+    · unfold x86MemAbs
+      dsimp only
+      repeat' split
+      all_goals first
+        | exact grow_refl s
+        | exact grow_emit s _
+        | exact grow_newReloc_emit s hc _ _ ⟨rfl, rfl, (by simp only [Reloc.rgn, List.length_append, zeros_length]; omega),
+            (by dsimp only [Reloc.rgn, fmtS, simpleValue]; omega), (by dsimp only [Reloc.rgn, fmtS, simpleValue]; omega),
+            fmtSvo_mem _ _ (.inr rfl), (fun hx => by cases hx),
+            ⟨0, (by show loadLE (_ ++ zeros 4 ++ _) _ 4 = _; rw [List.append_assoc]; exact zl_lead_imm _ _ 4), zcond _ _⟩⟩
+
 theorem step_rinv (s : State) (op : Op) (hop : op.early = true) (h : Inv s) (hr : RInv s) : RInv (step s op).1 :=
   rinv_grow hr h (step_grow s op hop h)
 
